@@ -53,6 +53,9 @@ impl<T> From<Result<T, Error>> for ErrorCode {
 pub extern "C" fn askar_get_current_error(error_json_p: *mut *const c_char) -> ErrorCode {
     trace!("askar_get_current_error");
 
+    if error_json_p.is_null() {
+        return ErrorCode::Input;
+    }
     let error = rust_string_to_c(get_current_error_json());
     unsafe { *error_json_p = error };
 
